@@ -48,6 +48,10 @@ pub enum V {
     /// ECMA array: (count field as written, pairs)
     Ecma(u32, Vec<(S, V)>),
     Arr(Vec<V>),
+    /// strict array of `n` copies of one value (wide arrays stay small in replay files)
+    ArrRep(Box<V>, u32),
+    /// object with `n` properties named `<prefix><i>` holding Number(i)
+    ObjRep(S, u32),
     Null,
     Undef,
 }
@@ -71,6 +75,8 @@ pub fn representable(v: &V) -> bool {
             .iter()
             .all(|(k, v)| k.len() >= 1 && k.len() <= 0xFFFF && representable(v)),
         V::Arr(a) => a.iter().all(representable),
+        V::ArrRep(v, _) => representable(v),
+        V::ObjRep(p, _) => p.len() + 10 <= 0xFFFF,
         _ => true,
     }
 }
@@ -124,6 +130,23 @@ pub fn enc_value(v: &V, out: &mut Vec<u8>) -> Result<(), String> {
             for i in items {
                 enc_value(i, out)?;
             }
+        }
+        V::ArrRep(v, n) => {
+            out.push(M_STRICT_ARRAY);
+            out.extend_from_slice(&n.to_be_bytes());
+            let mut one = Vec::new();
+            enc_value(v, &mut one)?;
+            for _ in 0..*n {
+                out.extend_from_slice(&one);
+            }
+        }
+        V::ObjRep(prefix, n) => {
+            out.push(M_OBJECT);
+            for i in 0..*n {
+                put_u16_str(out, &S::lit(format!("{}{}", prefix.build(), i)))?;
+                enc_value(&V::Num((i as f64).to_bits()), out)?;
+            }
+            out.extend_from_slice(&[0, 0, M_OBJECT_END]);
         }
         V::Null => out.push(M_NULL),
         V::Undef => out.push(M_UNDEFINED),
@@ -263,6 +286,14 @@ pub fn to_lib(v: &V) -> Amf0Value {
             Amf0Value::Object(m)
         }
         V::Arr(a) => Amf0Value::StrictArray(a.iter().map(to_lib).collect()),
+        V::ArrRep(v, n) => Amf0Value::StrictArray(vec![to_lib(v); *n as usize]),
+        V::ObjRep(prefix, n) => {
+            let mut m = HashMap::new();
+            for i in 0..*n {
+                m.insert(format!("{}{}", prefix.build(), i), Amf0Value::Number(i as f64));
+            }
+            Amf0Value::Object(m)
+        }
         V::Null => Amf0Value::Null,
         V::Undef => Amf0Value::Undefined,
     }
@@ -356,12 +387,14 @@ pub fn depth(v: &V) -> usize {
     match v {
         V::Obj(p) | V::Ecma(_, p) => 1 + p.iter().map(|x| depth(&x.1)).max().unwrap_or(0),
         V::Arr(a) => 1 + a.iter().map(depth).max().unwrap_or(0),
+        V::ArrRep(v, _) => 1 + depth(v),
+        V::ObjRep(_, _) => 1,
         _ => 0,
     }
 }
 
 pub fn has_container(v: &V) -> bool {
-    matches!(v, V::Obj(_) | V::Ecma(_, _) | V::Arr(_))
+    matches!(v, V::Obj(_) | V::Ecma(_, _) | V::Arr(_) | V::ArrRep(_, _) | V::ObjRep(_, _))
 }
 
 /// Visits every node of the tree.
@@ -378,6 +411,21 @@ pub fn walk<'a>(v: &'a V, f: &mut dyn FnMut(&'a V)) {
                 walk(x, f);
             }
         }
+        V::ArrRep(x, _) => walk(x, f),
         _ => {}
+    }
+}
+
+/// Expands the compact forms (ArrRep / ObjRep / repeated strings) into plain trees, the form the
+/// strict decoder produces.
+pub fn expand(v: &V) -> V {
+    match v {
+        V::Str(s) => V::Str(S::lit(s.build())),
+        V::Obj(p) => V::Obj(p.iter().map(|(k, v)| (S::lit(k.build()), expand(v))).collect()),
+        V::Ecma(c, p) => V::Ecma(*c, p.iter().map(|(k, v)| (S::lit(k.build()), expand(v))).collect()),
+        V::Arr(a) => V::Arr(a.iter().map(expand).collect()),
+        V::ArrRep(x, n) => V::Arr(vec![expand(x); *n as usize]),
+        V::ObjRep(prefix, n) => V::Obj((0..*n).map(|i| (S::lit(format!("{}{}", prefix.build(), i)), V::Num((i as f64).to_bits()))).collect()),
+        other => other.clone(),
     }
 }
